@@ -721,7 +721,7 @@ func ruleAnswers(r *Run) {
 				r.Check("B5", site, true, fn.Body.Pos(), "refusal path examined for state changes and relays")
 			}
 			// B7: a silent handler drops a message only for a recognised reason
-			if !hi.Secondary && (hi.Respond == nil || !hi.HasReqID) && ret == "nil" && nErr == 0 && !hasSkip(path) {
+			if !hi.Secondary && (hi.Respond == nil || !hi.HasReqID || cname(hi.Const) == "MSG_TYPE_PING_RESPONSE") && ret == "nil" && nErr == 0 && !hasSkip(path) {
 				acted := false
 				for _, me := range r.mutEvents(path) {
 					if !r.reportedFailure(path, me) {
